@@ -352,7 +352,7 @@ def lock_case(draw):
             "age": draw(st.sampled_from([1, 30, 299, 301, 5000])), "threshold": draw(st.sampled_from([300, 10]))}
 
 
-def holder(cache, ident, log, hold, write_time=False, threshold=300, start_pipe=None):
+def holder(cache, ident, log, hold, write_time=False, threshold=300, start_pipe=None, release_pipe=None):
     """Forked lock holder: logs 'E<ident>' on entering, 'X<ident>' on leaving, 'C<ident>' on CacheException,
     'O<ident>:<type>' on any other exception."""
     pid = os.fork()
@@ -366,7 +366,10 @@ def holder(cache, ident, log, hold, write_time=False, threshold=300, start_pipe=
                 os.write(fd, f"E{ident}\n".encode())
                 if start_pipe is not None:
                     os.write(start_pipe, b"e")
-                time.sleep(hold)
+                if release_pipe is not None:
+                    os.read(release_pipe, 1)          # hold until the harness says so (no timing assumption)
+                else:
+                    time.sleep(hold)
                 os.write(fd, f"X{ident}\n".encode())
         except CacheException:
             os.write(fd, f"C{ident}\n".encode())
@@ -426,15 +429,24 @@ def oracle_lock(case):
                 out.bad("uncontended-lock-refused", str(lines))
         else:
             sr, sw = os.pipe()
-            a = holder(cache, "A", log, 1.8 if kind == "contend" else 0.45, start_pipe=sw)
-            os.read(sr, 1)                       # A is inside
-            b = holder(cache, "B", log, 0.3)     # B must wait / give up
-            pids = [a, b]
-            if kind == "three-way":
+            if kind == "contend":
+                rr, rw = os.pipe()
+                a = holder(cache, "A", log, 0, start_pipe=sw, release_pipe=rr)
+                os.read(sr, 1)                   # A is inside and stays there
+                b = holder(cache, "B", log, 0.1)
+                wait(b)                          # B must have given up (its timeout is 1 s) while A still holds
+                os.write(rw, b"r")
+                wait(a)
+                os.close(rr)
+                os.close(rw)
+            else:
+                a = holder(cache, "A", log, 0.45, start_pipe=sw)
+                os.read(sr, 1)                   # A is inside
+                b = holder(cache, "B", log, 0.3)  # B waits, retrying
                 time.sleep(0.5)                  # A has just left: C arrives while B may still be retrying
-                pids.append(holder(cache, "C", log, 1.2))
-            for p in pids:
-                wait(p)
+                c = holder(cache, "C", log, 1.2)
+                for p in (a, b, c):
+                    wait(p)
             os.close(sr)
             os.close(sw)
             lines = open(log).read().split()
